@@ -466,9 +466,27 @@ func c07Alias(fi, ai, n, origin, wrap int) core.Result {
 		ctx["base"] = sl
 	case 2:
 		build = "{% set base = [" + strings.Join(els, ", ") + "] %}"
+	case 3, 4: // a hash: written as a literal / passed in the context
+		var ents []string
+		m := map[string]stick.Value{}
+		for i := 1; i <= n; i++ {
+			ents = append(ents, "'k"+itoa(i)+"': "+itoa(i))
+			m["k"+itoa(i)] = i
+		}
+		if origin == 3 {
+			build = "{% set base = {" + strings.Join(ents, ", ") + "} %}"
+		} else {
+			ctx["base"] = m
+		}
 	}
 	obs := "{{ a|join(',') }};{{ base|join(',') }};{{ a|length }};{{ base|length }}"
 	use := "{% set tmp = base|" + f + " %}{% set tmp2 = a|" + f + " %}{% set tmp3 = base|merge(['q'])|" + f + " %}"
+	mergeX := "['x']"
+	if origin >= 3 {
+		obs = "{{ a|json_encode|raw }};{{ base|json_encode|raw }};{{ a|length }};{{ base|length }}"
+		use = "{% set tmp = base|" + f + " %}{% set tmp2 = a|" + f + " %}{% set tmp3 = base|merge({'q': 'q'})|" + f + " %}"
+		mergeX = "{'x': 'x'}"
+	}
 	body := use
 	switch wrap {
 	case 1:
@@ -478,13 +496,20 @@ func c07Alias(fi, ai, n, origin, wrap int) core.Result {
 	case 3:
 		body = "{% macro m(base, a) %}" + use + "{% endmacro %}{{ _self.m(base, a) }}"
 	}
-	pre := build + "{% set a = base|merge(['x']) %}"
+	pre := build + "{% set a = base|merge(" + mergeX + ") %}"
 	env := twig.New(nil)
 	before, err, pan := tryExec(env, pre+obs, ctx)
 	if pan != "" || err != nil {
 		return core.Violation("error", fmt.Sprintf("%q: %v %s", pre+obs, err, pan))
 	}
 	want := strings.Join(append(append([]string{}, els...), "x"), ",") + ";" + strings.Join(els, ",") + ";" + itoa(n+1) + ";" + itoa(n)
+	if origin >= 3 {
+		var ents []string
+		for i := 1; i <= n; i++ {
+			ents = append(ents, "\"k"+itoa(i)+"\":"+itoa(i))
+		}
+		want = "{" + strings.Join(append(append([]string{}, ents...), "\"x\":\"x\""), ",") + "};{" + strings.Join(ents, ",") + "};" + itoa(n+1) + ";" + itoa(n)
+	}
 	if before != want {
 		return core.Violation("scoping", fmt.Sprintf("%q renders %q, want %q", pre+obs, before, want))
 	}
@@ -634,11 +659,11 @@ func c07Levels(tier string) []core.Level {
 				}
 			}
 		}},
-		{Name: fmt.Sprintf("twig environment, no aliasing between variables: a body (top level / loop / if / macro) that assigns the result of every built-in filter (%d) x %d argument lists applied to a list variable and to a value derived from it only to fresh names; lists of 0..9 elements accumulated with merge, passed as a context slice with spare capacity, or written as a literal: the outer variables read exactly as before", len(c02FilterNames()), len(c07AliasArgs)), Gen: func(emit func(core.Case)) {
+		{Name: fmt.Sprintf("twig environment, no aliasing between variables: a body (top level / loop / if / macro) that assigns the result of every built-in filter (%d) x %d argument lists applied to a list variable and to a value derived from it only to fresh names; lists of 0..9 elements accumulated with merge, passed as a context slice with spare capacity, or written as a literal, and hashes of 0..9 entries written as a literal or passed in the context: the outer variables read exactly as before", len(c02FilterNames()), len(c07AliasArgs)), Gen: func(emit func(core.Case)) {
 			for fi := range c02FilterNames() {
 				for ai := range c07AliasArgs {
 					for n := 0; n <= 9; n++ {
-						for origin := 0; origin < 3; origin++ {
+						for origin := 0; origin < 5; origin++ {
 							for wrap := 0; wrap < 4; wrap++ {
 								emit(core.Case{Fam: "alias", N: []int{fi, ai, n, origin, wrap}})
 							}
